@@ -171,3 +171,39 @@ def struct_names(V, text, single):
 
 def words_of(text):
     return [t for t in TOKEN.findall(text) if t not in ("*", "/") and not t.isspace() and not t.startswith("^")]
+
+
+def cast_matrix(V, rng, tier):
+    """Every unit (its shortest name, and every name of at most two letters) cast to one representative target of every dimension
+    that occurs in the vocabulary. Returns [(query, source names, target names)] with the names as the words read alone: what a word
+    means must not depend on what it is cast to."""
+    words = []
+    for v in sorted(V.names):
+        if V.variant_unit.get(v) in V.offset_units:
+            continue
+        names = sorted(V.names[v], key=lambda n: (len(n), n))
+        words.append(names[0])
+        words += [n for n in names[1:] if len(n) <= 2]
+    words = sorted(set(words))
+    read = dict(zip(words, impl_units(words)))
+    reps = {}
+    for w in words:
+        na = read.get(w)
+        if not na:
+            continue
+        key = tuple(sorted(V.dims(na).items()))
+        if key not in reps or (len(w), w) < (len(reps[key]), reps[key]):
+            reps[key] = w
+    extra = ["m/s^2", "N/kg", "km/hr^2", "ft/s^2", "gforce", "m/s", "kg*m/s^2", "m^2", "m^3", "1/s", "kg/m^3", "J/kg", "W/m^2"]
+    eread = dict(zip(extra, impl_units(extra)))
+    targets = [(t, read[t]) for t in sorted(reps.values())] + [(t, eread[t]) for t in extra if eread.get(t)]
+    out = []
+    for w in words:
+        na = read.get(w)
+        if not na:
+            continue
+        for t, nt in targets:
+            if tier == "quick" and t not in extra and V.dims(na) != V.dims(nt) and rng.random() < 0.8:
+                continue
+            out.append(("%d %s to %s" % (rng.randint(1, 9), w, t), na, nt))
+    return out
